@@ -1,5 +1,6 @@
 (** C14 — toxicity is the per-connection probability that a toxic applies. *)
-From TP Require Import Model.Prelude Extracted Model.Toxics Model.Timed Proofs.LinkFrame Proofs.C14Proofs.
+From TP Require Import Model.Prelude Extracted Model.Toxics Model.Timed Model.Reconf Model.ReconfRun Proofs.LinkFrame Proofs.C14Proofs
+     Proofs.ReconfRunProofs.
 
 Theorem C14_zero_never : forall D k, 0 <= k < D -> applies toxicity_cmp k 0 = false.
 Proof. exact zero_never. Qed.
@@ -29,3 +30,37 @@ Print Assumptions C14_measure_partial.
 Theorem C14_le_would_break_zero : applies TLe 0 0 = true.
 Proof. exact le_would_break_zero. Qed.
 Print Assumptions C14_le_would_break_zero.
+
+(** "Changing toxicity through the API takes effect on established connections": the update stores
+    the new toxicity before it interrupts the stages, waits for every stage whose stub is not
+    closed - however long that stage is busy - and restarts it with a fresh decision. On the model
+    of the operation (Model/ReconfRun.v, replayed against the code to the nanosecond): *)
+Theorem C14_update_gives_up_only_on_closed : forall l p w,
+  interrupt_try l p w = IFalse -> exists s, nth_error (l_stubs l) p = Some s /\ s_closed s = true /\ w = false.
+Proof. exact interrupt_gives_up_only_on_closed. Qed.
+Print Assumptions C14_update_gives_up_only_on_closed.
+
+Theorem C14_update_restarts_with_the_request : forall r p tx eff,
+  r_ph r = PUpd p tx eff true ->
+  (exists s, nth_error (l_stubs (r_l r)) p = Some s /\ is_exited s = true /\ s_closed s = false) ->
+  exists r', ctl_move r = Some (Some (MCtl (CRestart p tx eff)), r') /\ r_ph r' = PIdle.
+Proof. exact update_restarts_with_the_request. Qed.
+Print Assumptions C14_update_restarts_with_the_request.
+
+Theorem C14_restart_decides_afresh : forall l p tx eff l',
+  ctl_step l (CRestart p tx eff) = Some l' ->
+  exists s s', nth_error (l_stubs l) p = Some s /\ nth_error (l_stubs l') p = Some s' /\
+    s_tx s' = tx /\ s_eff s' = eff /\ s_inq s' = s_inq s /\
+    s_st s' = init_state (if eff then tx else TNoop) (s_ps s') (l_now l).
+Proof. exact restart_takes_the_new_toxic. Qed.
+Print Assumptions C14_restart_decides_afresh.
+
+(** ... and the shape of the code these rest on, regenerated on every run: Run draws on every start
+    and remembers nothing on the stub; UpdateToxicJson stores attributes and toxicity before
+    chainUpdateToxic; InterruptToxic is the two-arm select {closed: false | Interrupt: wait for the
+    stage, true} with no give-up; the link operations reach the stages through it alone *)
+Theorem C14_code_facts :
+  run_decides_on_every_start = true /\ update_writes_before_interrupt = true /\
+  interrupt_is_unbounded = true /\ ops_use_plain_interrupt = true.
+Proof. repeat split; reflexivity. Qed.
+Print Assumptions C14_code_facts.
